@@ -253,12 +253,23 @@ func compareWithModel(r *rec, api string, orig, red map[string]interface{}) *hx.
 	return nil
 }
 
-func replayOne(i int, raw json.RawMessage) hx.Result {
+func replayOne(seed int64, i int, raw json.RawMessage) hx.Result {
 	var r rec
 	if err := json.Unmarshal(raw, &r); err != nil {
 		panic(fmt.Sprintf("harness: bad record: %v", err))
 	}
-	if res := runScenario(&r); res != nil {
+	res := runScenario(&r, newHistory(&r, i, seed))
+	if res == nil && r.Fam == "probe" {
+		// a probe (a recorded call re-executed): once after each earlier call of the model
+		for _, c := range allCalls {
+			h := newHistory(&r, i, seed)
+			h.fixed = []histCall{c}
+			if res = runScenario(&r, h); res != nil {
+				break
+			}
+		}
+	}
+	if res != nil {
 		res.NT = ntOf(&r)
 		return *res
 	}
@@ -266,11 +277,26 @@ func replayOne(i int, raw json.RawMessage) hx.Result {
 }
 
 func ntOf(r *rec) string {
-	return fmt.Sprintf("%s|algo%d|%s|top=%s|con=%s|tpi=%s", r.Fam, r.Algo, typeClass(r.Type),
-		strings.Join(sorted(r.KTop), ","), strings.Join(sorted(r.KCon), ","), strings.Join(sorted(r.KTpi), ","))
+	kind := ""
+	if r.Kind == "hist" {
+		// what is distinct about a history scenario is the history
+		kind = "|after"
+		for _, c := range r.Hist {
+			kind += fmt.Sprintf(":%s/%d/%s/%s", c.Entry, c.Algo, c.Outcome, c.PType)
+		}
+	}
+	return fmt.Sprintf("%s|algo%d|%s|top=%s|con=%s|tpi=%s%s", r.Fam, r.Algo, typeClass(r.Type),
+		strings.Join(sorted(r.KTop), ","), strings.Join(sorted(r.KCon), ","), strings.Join(sorted(r.KTpi), ","), kind)
 }
 
-func runScenario(r *rec) *hx.Result {
+func (f *hxFailure) result() *hx.Result {
+	if f == nil {
+		return nil
+	}
+	return fail(f.key, f.what, f.want, f.got)
+}
+
+func runScenario(r *rec, h *history) *hx.Result {
 	ver, err := gmsl.GetRoomVersion(gmsl.RoomVersion(r.Ver))
 	if err != nil {
 		return fail("C05/version/unregistered", "room version "+r.Ver+" is not registered", nil, nil)
@@ -285,7 +311,7 @@ func runScenario(r *rec) *hx.Result {
 	default:
 		// the same abstract event in every spelling
 		for sp := 0; sp < spellings; sp++ {
-			if res := checkJSON(r, ver, rawEvent(r, sp), fmt.Sprintf("RedactEventJSON[spelling %d]", sp)); res != nil {
+			if res := checkJSON(r, ver, rawEvent(r, sp), fmt.Sprintf("RedactEventJSON[spelling %d]", sp), h); res != nil {
 				return res
 			}
 		}
@@ -298,7 +324,7 @@ func runScenario(r *rec) *hx.Result {
 
 	// ---- IRoomVersion.RedactEventJSON -------------------------------------------------------------
 	if r.API != "pdu" {
-		if res := checkJSON(r, ver, event, "RedactEventJSON"); res != nil {
+		if res := checkJSON(r, ver, event, "RedactEventJSON", h); res != nil {
 			return res
 		}
 	}
@@ -320,7 +346,11 @@ func runScenario(r *rec) *hx.Result {
 	}
 	before := identOf(p)
 	redactedBySigning := append([]byte(nil), event...)
+	h.before()
 	p.Redact()
+	if res := h.leaked("PDU.Redact", p.JSON()).result(); res != nil {
+		return res
+	}
 	if !p.Redacted() {
 		return fail("C05/pdu/not-marked-redacted", "PDU.Redacted() is false after Redact()", true, false)
 	}
@@ -368,6 +398,7 @@ func runScenario(r *rec) *hx.Result {
 	}
 
 	// the same event received over federation (untrusted parse: strips unsigned / age_ts, checks the content hash)
+	h.before()
 	if u, err := ver.NewEventFromUntrustedJSON(event); err == nil {
 		uid := u.EventID()
 		if !isFormatV1(r.Ver) && uid != before.ID {
@@ -376,6 +407,9 @@ func runScenario(r *rec) *hx.Result {
 		u.Redact()
 		if u.EventID() != uid {
 			return fail("C05/eventid/changed", fmt.Sprintf("EventID() of an event parsed as untrusted JSON changed by Redact() (room version %s)", r.Ver), uid, u.EventID())
+		}
+		if res := h.leaked("NewEventFromUntrustedJSON + PDU.Redact", u.JSON()).result(); res != nil {
+			return res
 		}
 		ur, err := decodeObj(u.JSON())
 		if err != nil {
@@ -593,7 +627,7 @@ func builtDirectly(r *rec, ver gmsl.IRoomVersion, built gmsl.PDU) *hx.Result {
 }
 
 // checkJSON runs IRoomVersion.RedactEventJSON on one event text: key sets, values, idempotence.
-func checkJSON(r *rec, ver gmsl.IRoomVersion, event []byte, api string) *hx.Result {
+func checkJSON(r *rec, ver gmsl.IRoomVersion, event []byte, api string, h *history) *hx.Result {
 	orig, err := decodeObj(event)
 	if err != nil {
 		panic(fmt.Sprintf("harness: composed event is not JSON: %v: %s", err, event))
@@ -608,9 +642,14 @@ func checkJSON(r *rec, ver gmsl.IRoomVersion, event []byte, api string) *hx.Resu
 		}
 	}
 	input := append([]byte(nil), event...)
+	first := h == nil || h.stage == 0
+	h.before()
 	redJSON, err := ver.RedactEventJSON(event)
 	if err != nil {
 		return fail("C05/json/error", api+" failed: "+err.Error(), nil, nil)
+	}
+	if res := h.leaked(api, redJSON).result(); res != nil {
+		return res
 	}
 	if !bytes.Equal(input, event) {
 		return fail("C05/json/input-modified", api+" modified its input buffer", string(input), string(event))
@@ -622,9 +661,15 @@ func checkJSON(r *rec, ver gmsl.IRoomVersion, event []byte, api string) *hx.Resu
 	if res := compareWithModel(r, api, orig, red); res != nil {
 		return res
 	}
+	if first || r.Kind == "hist" {
+		h.before()
+	}
 	again, err := ver.RedactEventJSON(redJSON)
 	if err != nil {
 		return fail("C05/idempotent/error", "second RedactEventJSON failed: "+err.Error(), nil, nil)
+	}
+	if res := h.leaked(api+", applied to its own result", again).result(); res != nil {
+		return res
 	}
 	red2, err := decodeObj(again)
 	if err != nil || !sameJSON(red, red2) {
